@@ -189,11 +189,23 @@ def random_traces(run, n, length, seed):
         rm = RealMonitor("rnd%d" % k)
         steps = []
         present = {}
+        gone = {}          # removed files as they were: (content, valid, mtime)
+        mt = {}
         clock = 100
         try:
             pending_removal = False
             for i in range(length):
                 x = r.random()
+                if gone and r.random() < 0.12:
+                    # a removed file comes back exactly as it was, old modification time included
+                    f = r.choice(sorted(gone))
+                    content, valid, old = gone.pop(f)
+                    rm.write(f, content, valid, old)
+                    present[f] = content
+                    mt[f] = (valid, old)
+                    steps.append({"kind": "write", "f": f, "content": {nm: content.get(nm, "none") for nm in content},
+                                  "valid": valid, "mtime": old})
+                    continue
                 if x < 0.45 or not present:
                     f = r.choice(files)
                     content = {nm: r.choice(defs) for nm in names if r.random() < (0.5 if nm != "default" else 0.1)}
@@ -203,11 +215,14 @@ def random_traces(run, n, length, seed):
                     clock += 1
                     rm.write(f, content, valid, clock)
                     present[f] = content
+                    mt[f] = (valid, clock)
+                    gone.pop(f, None)
                     steps.append({"kind": "write", "f": f, "content": {nm: content.get(nm, "none") for nm in content},
                                   "valid": valid, "mtime": clock})
                 elif x < 0.6 and present and (not pending_removal or multi):
                     f = r.choice(sorted(present))
                     rm.remove(f)
+                    gone[f] = (present[f], mt[f][0], mt[f][1])
                     del present[f]
                     pending_removal = True
                     steps.append({"kind": "remove", "f": f})
